@@ -196,6 +196,28 @@ def run(chk, repo, tier):
            '; '.join(sorted(nf.fmt_atom(a) for a in cmp_seen | keep_seen)), f.loc())
 
     # trim
+    # what trim cuts at: the first and the last sample above `tol` times the PEAK value (the documented meaning of tol) - relative
+    # to any other scale (the total, the mean) the kept range depends on how finely the spectrum is sampled
+    fe_, pe_, _ = analyse(repo, f'{SPEC}.ends')
+    oke_, dete_, ne_ = None, '', 0
+    for p in returns(pe_):
+        for a in nf.value_atoms(p.ret):
+            if not is_app(a, ('lt', 'le')) or len(a[2]) != 2:
+                continue
+            side = [x for x in a[2] if isinstance(x, Poly) and any(y in sattr('value')[0].atoms() | sattr('value')[-1].atoms()
+                                                                     for y in nf.value_atoms(x))]
+            if len(side) != 1:
+                continue
+            ne_ += 1
+            v_ = side[0]
+            peak = [nf.app(fn, sv) for fn in ('amax', 'max', 'm:max') for sv in sattr('value')]
+            if any(v_ == sv * pk.pow(-1) for sv in sattr('value') for pk in peak):
+                oke_ = True if oke_ is None else oke_
+            elif any(is_app(y, ('sum', 'm:sum', 'mean', 'm:mean', 'median', 'trapz', 'numpy.trapz', 'linalg.norm'))
+                     for y in nf.value_atoms(v_)):
+                oke_, dete_ = False, f'the values are compared as {fmt(v_)[:100]}'
+    chk.ob('C15-d', 'N-formula', fe_.key, 'the ends are where the values exceed tol times the peak value', oke_ if ne_ else None,
+           dete_, fe_.loc())
     f, pp = edit_paths('trim')
     okb = okc = okd = False
     for p in [x for x in pp if x.status != 'raise']:
@@ -880,6 +902,34 @@ def quadrature_cover_rule(chk, repo, fi, clause):
                                'between them is left out')
     chk.ob(clause, 'N-additive', fi.key, 'the selected samples are integrated whole (pieces meet in a shared sample)',
            (not bad) if n else None, '; '.join(bad[:2]) or f'{n} path(s): one quadrature over the selection', fi.loc())
+    # ordinate and abscissa: the values are integrated over the wavelengths (simpson takes them by name, trapezoid by position:
+    # y first) - the other way round is the integral of wave d(value)
+    roles_bad, nr = [], 0
+    W = {('attr', ('sym', 'self'), 'wave'), ('attr', ('sym', 'self'), '_wave')}
+    V = {('attr', ('sym', 'self'), 'value'), ('attr', ('sym', 'self'), '_value')}
+    for method in ('simps', 'trapz'):
+        _, pr_, _ = analyse(repo, fi, config={'start': S('start'), 'end': S('end'), 'method': Const(method)})
+        for p in returns(pr_):
+            for a in (x for x in nf.value_atoms(p.ret) if is_app(x, QUAD)):
+                args = [x for x in a[2] if isinstance(x, Poly)]
+                kws = {}
+                for x in a[2]:
+                    if isinstance(x, Tup):
+                        for pr in x.items:
+                            if isinstance(pr, Tup) and len(pr) == 2 and isinstance(pr.items[0], Const):
+                                kws[pr.items[0].value] = pr.items[1]
+                ys = kws.get('y', args[0] if args else None)
+                xs = kws.get('x', args[1] if len(args) > 1 else None)
+                if ys is None or xs is None:
+                    continue
+                ya, xa_ = set(nf.value_atoms(ys)), set(nf.value_atoms(xs))
+                if not ((ya & (W | V)) and (xa_ & (W | V))):
+                    continue
+                nr += 1
+                if (xa_ & V and not xa_ & W) or (ya & W and not ya & V):
+                    roles_bad.append(f'[{method}] {a[1]}(y={fmt(ys)[:40]}, x={fmt(xs)[:40]})')
+    chk.ob(clause, 'N-formula', fi.key, 'the values are integrated over the wavelengths (y = value, x = wave)', (not roles_bad) if nr else None,
+           '; '.join(roles_bad[:2]) + (': that is the integral of the wavelength over the values' if roles_bad else ''), fi.loc())
 
 
 
